@@ -91,9 +91,20 @@ def strip_comments(src):
     return "".join(out)
 
 
+def _big_stack():
+    """coqc elaborates the batch files' long list literals recursively: a 1.7 MB case list overflowed the default
+    8 MB stack (thorough tier of C08); children run with the stack limit raised as far as the hard limit allows"""
+    import resource
+    try:
+        soft, hard = resource.getrlimit(resource.RLIMIT_STACK)
+        resource.setrlimit(resource.RLIMIT_STACK, (hard, hard))
+    except (ValueError, OSError):
+        pass
+
+
 def run(cmd, cwd=None, timeout=3600, input=None, env=None):
     p = subprocess.run(cmd, cwd=cwd, input=input, stdout=subprocess.PIPE, stderr=subprocess.STDOUT,
-                       timeout=timeout, env=env, text=True)
+                       timeout=timeout, env=env, text=True, preexec_fn=_big_stack)
     return p.returncode, p.stdout
 
 
